@@ -15,7 +15,8 @@ GOOD = (b"HTTP/1.1 101 Switching Protocols\r\nUpgrade: websocket\r\nConnection: 
 
 
 def documented(cls):
-    return not (cls.startswith("Internal") or cls.startswith("Other"))
+    # every scenario of this check starts from a valid URL, so a ValueError can only be the server's doing: not documented
+    return not (cls.startswith("Internal") or cls.startswith("Other") or cls == "ValueErr")
 
 
 def hs_inputs(tier, rng):
@@ -36,6 +37,23 @@ def hs_inputs(tier, rng):
              b"HTTP/1.1 101 " + b"A" * 70000 + b"\r\n\r\n", b"A" * 5000]
     for l in lines:
         yield l
+    # well-formed UTF-8 that Python's str methods treat specially: digits that are not decimal (isdigit/int disagree), decimal digits of
+    # other scripts (int() accepts them), Unicode spaces and line separators (strip/split/splitlines), case-folding oddities
+    uni = ["²", "¹⁰¹", "①②", "١٠١", "１０１", "१०१", "\u00a0", "\u2028", "\u0085", "\u3000", "ſ", "İ", "ß", "K", "\u200b", "\ufeff", "\U0001d7cf"]
+    for u in uni:
+        ub = u.encode("utf-8")
+        yield b"HTTP/1.1 " + ub + b" OK\r\n\r\n"
+        yield b"HTTP/1.1 10" + ub + b" OK\r\n\r\n"
+        yield b"HTTP/1.1 " + ub + b"101 Switching Protocols\r\n\r\n"
+        yield b"HTTP/1.1" + ub + b"101 OK\r\n\r\n"
+        yield b"HTTP/1.1 404 NF\r\nContent-Length: " + ub + b"\r\n\r\nbody"
+        yield b"HTTP/1.1 404 NF\r\nContent-Length: 1" + ub + b"\r\n\r\nbodybodybodybody"
+        yield b"HTTP/1.1 302 Found\r\nLocation: ws://h" + ub + b".test:80" + ub + b"/\r\n\r\n"
+        yield b"HTTP/1.1 302 Found\r\nLocation" + ub + b": ws://h.test/\r\n\r\n"
+        yield GOOD.replace(b"Upgrade: websocket", b"Upgrade: web" + ub + b"socket")
+        yield GOOD.replace(b"Upgrade:", b"Upgrade" + ub + b":")
+        yield GOOD.replace(b"\r\n\r\n", b"\r\nSet-Cookie: a" + ub + b"=1; Domain=" + ub + b"\r\n\r\n")
+        yield GOOD.replace(b"Sec-WebSocket-Accept: ", b"Sec-WebSocket-Accept: " + ub)
     # single-field corruptions and truncations of a valid response
     for i in range(len(GOOD)):
         yield GOOD[:i]
@@ -143,6 +161,16 @@ def run(ctx):
                 T.fail("spec", pub, "a documented exception", r, {"site": "recv", "cls": "internal-exception", "exn": r[6:]},
                        what=f"a receive call failed with {r[6:]} on server bytes {b[:40]!r}")
                 break
+        # progress: a call that reports a protocol/payload error must have consumed something (bytes read from the transport or
+        # taken from the library's buffer); otherwise the same error comes back for ever and later frames are never reached
+        for i, r in enumerate(results):
+            if r in ("raise:Protocol", "raise:Payload") and i < len(s.buffered):
+                nreads = sum(1 for e in s.log[s.marks[i]:s.marks[i + 1]] if e[0] == "r")
+                if nreads == 0 and s.buffered[i] == 0:
+                    T.fail("spec", pub, "every failing receive call consumes input", f"call {i} raised {r[6:]} with no transport read and an empty buffer",
+                           {"site": "recv", "cls": "no-progress"},
+                           what="a receive call raised without consuming any input: the connection is stuck on the same error")
+                    break
         if max(s.reads()[len([e for e in s.log[:s.hs_mark] if e[0] == 'r']):] or [0]) > 16384:
             T.fail("spec", pub, "no transport read larger than 16384 bytes", str(max(s.reads())), {"site": "recv", "cls": "unbounded-read"})
         masked_big = len(b) > 400
